@@ -5,10 +5,6 @@ import RtenVerif.Lemmas.Gather
 namespace RtenVerif.Layout
 open RtenVerif.Arr RtenVerif.Overlap
 
-def toRefItem : SliceItem → NArr.Item
-  | .index i => .index i
-  | .range r => .range r.start r.stop r.step
-
 /-- The reference's acceptance condition for one item of a view slice. -/
 def itemOk (n : Nat) : SliceItem → Prop
   | .index i => 0 ≤ (if i ≥ 0 then i else i + n) ∧ (if i ≥ 0 then i else i + n) < n
